@@ -2,6 +2,7 @@ package gj5s
 
 import (
 	"fmt"
+	"strings"
 )
 
 // Case is one generated program with its structural coordinates.
@@ -550,6 +551,177 @@ func ShapeCases() []*Case {
 		f := file("t/v1", "a")
 		f.Add(obj("Foo", &Field{Name: "val", T: T(TString), Attrs: []string{`rules.pattern = "^a\\\\d+ \\"q\\" é😀$"`}}))
 		add("pattern-with-escapes", f)
+	}
+	return out
+}
+
+// PipelineCases: shapes that the downstream tools (client API, OpenAPI) must digest.
+func PipelineCases() []*Case {
+	var out []*Case
+	add := func(id string, f *File) {
+		out = append(out, &Case{ID: "pipeline:" + id, Family: "pipeline", Coord: "pipeline|" + id, P: &Program{Files: []*File{f}}})
+	}
+	// every field type in request body, query, response and path position
+	for _, tv := range typeVariants() {
+		for _, pos := range []string{"body", "query", "response", "path"} {
+			for _, cont := range []string{"plain", "array", "map"} {
+				if pos == "path" && (cont != "plain" || tv.Name == "any" || strings.Contains(tv.Name, "object") || strings.Contains(tv.Name, "oneof") || tv.Name == "bytes") {
+					continue
+				}
+				f := file("t/v1", "a")
+				t := tv.Make(f)
+				switch cont {
+				case "array":
+					t = ArrayOf(t)
+				case "map":
+					t = MapOf(t)
+				}
+				m := &Method{Name: "DoThing", Verb: "POST", Path: "/things", HasResponse: true}
+				switch pos {
+				case "body":
+					m.Request = []*Field{fld("val", t)}
+				case "query":
+					m.Verb = "GET"
+					m.Request = []*Field{fld("val", t)}
+				case "response":
+					m.Response = []*Field{fld("val", t)}
+				case "path":
+					m.Verb = "GET"
+					m.Path = "/things/:val"
+					m.Request = []*Field{fld("val", t)}
+				}
+				f.Decls = append([]any{&Service{Name: "Thing", BasePath: "/t/v1", Methods: []*Method{m}}}, f.Decls...)
+				out = append(out, &Case{ID: fmt.Sprintf("pipeline:position:%s:%s:%s", tv.Name, pos, cont), Family: "pipeline", Coord: "pipeline|position=" + pos + "|type=" + tv.Name, P: &Program{Files: []*File{f}}})
+			}
+		}
+	}
+	// list methods over filterable / sortable / searchable fields
+	{
+		f := file("t/v1", "a")
+		item := obj("Item",
+			&Field{Name: "itemId", T: T(TKeyID62), Attrs: []string{"listRules.filtering.filterable = true"}},
+			&Field{Name: "name", T: T(TString), Attrs: []string{"listRules.searching.searchable = true"}},
+			&Field{Name: "count", T: T(TInt64), Attrs: []string{"listRules.filtering.filterable = true", "listRules.sorting.sortable = true"}},
+			&Field{Name: "createdAt", T: T(TTimestamp), Attrs: []string{"listRules.filtering.filterable = true", "listRules.sorting.sortable = true"}},
+			&Field{Name: "kind", T: InlineOf(enumD("", "A", "B")), Attrs: []string{"listRules.filtering.filterable = true"}},
+			&Field{Name: "flag", T: T(TBool), Attrs: []string{"listRules.filtering.filterable = true"}},
+			&Field{Name: "inner", T: InlineOf(obj("", &Field{Name: "deepName", T: T(TString), Attrs: []string{"listRules.searching.searchable = true"}}))},
+		)
+		f.Add(item)
+		f.Add(&Service{Name: "Item", BasePath: "/t/v1", Methods: []*Method{{Name: "ListItems", Verb: "GET", Path: "/items", HasResponse: true,
+			Request:  []*Field{{Name: "page", T: &Type{K: TObject, Ref: &Ref{Qualifier: "j5.list.v1", To: &Decl{Kind: DObject, Name: "PageRequest", File: &File{Dir: "j5/list/v1", Name: "page"}}}}}, {Name: "query", T: &Type{K: TObject, Ref: &Ref{Qualifier: "j5.list.v1", To: &Decl{Kind: DObject, Name: "QueryRequest", File: &File{Dir: "j5/list/v1", Name: "query"}}}}}},
+			Response: []*Field{fld("items", ArrayOf(RefTo(item, ""))), {Name: "page", T: &Type{K: TObject, Ref: &Ref{Qualifier: "j5.list.v1", To: &Decl{Kind: DObject, Name: "PageResponse", File: &File{Dir: "j5/list/v1", Name: "page"}}}}}}}}})
+		f.Imports = []Import{{Pkg: "j5.list.v1"}}
+		add("list-method", f)
+	}
+	// one list rule on one field, at the top level, nested, below a oneof arm and in a recursive item
+	{
+		type lr struct {
+			tv    string
+			rules []string
+		}
+		listRefs := func() (page, query, pageResp *Type) {
+			mk := func(n, file string) *Type {
+				return &Type{K: TObject, Ref: &Ref{Qualifier: "j5.list.v1", To: &Decl{Kind: DObject, Name: n, File: &File{Dir: "j5/list/v1", Name: file}}}}
+			}
+			return mk("PageRequest", "page"), mk("QueryRequest", "query"), mk("PageResponse", "page")
+		}
+		for _, l := range []lr{
+			{"string", []string{"searching.searchable"}},
+			{"bool", []string{"filtering.filterable"}},
+			{"integer:INT32", []string{"filtering.filterable", "sorting.sortable"}},
+			{"integer:UINT64", []string{"filtering.filterable", "sorting.sortable"}},
+			{"float:FLOAT64", []string{"filtering.filterable", "sorting.sortable"}},
+			{"timestamp", []string{"filtering.filterable", "sorting.sortable"}},
+			{"key", []string{"filtering.filterable"}},
+			{"key:uuid", []string{"filtering.filterable"}},
+			{"enum-inline", []string{"filtering.filterable"}},
+			{"enum-ref", []string{"filtering.filterable"}},
+			{"oneof-ref", []string{"filtering.filterable"}},
+			{"date", []string{"filtering.filterable"}},
+			{"decimal", []string{"filtering.filterable", "sorting.sortable"}},
+		} {
+			for _, rule := range l.rules {
+				for _, pos := range []string{"top", "nested", "oneof-arm", "recursive"} {
+					var tv TypeVariant
+					for _, x := range typeVariants() {
+						if x.Name == l.tv {
+							tv = x
+						}
+					}
+					f := file("t/v1", "a")
+					f.Imports = []Import{{Pkg: "j5.list.v1"}}
+					val := &Field{Name: "val", T: tv.Make(f), Attrs: []string{"listRules." + rule + " = true"}}
+					item := obj("Item", fld("itemId", T(TKeyID62)))
+					path := "val"
+					switch pos {
+					case "top":
+						item.Fields = append(item.Fields, val)
+					case "nested":
+						item.Fields = append(item.Fields, fld("inner", InlineOf(obj("", fld("other", T(TString)), val))))
+						path = "inner.val"
+					case "oneof-arm":
+						item.Fields = append(item.Fields, fld("pick", InlineOf(oneofD("", fld("arm", InlineOf(obj("", val)))))))
+						path = "pick.arm.val"
+					case "recursive":
+						item.Fields = append(item.Fields, val, fld("child", RefTo(item, "")))
+					}
+					f.Add(item)
+					page, query, pageResp := listRefs()
+					f.Add(&Service{Name: "Item", BasePath: "/t/v1", Methods: []*Method{{Name: "ListItems", Verb: "GET", Path: "/items", HasResponse: true,
+						Request:  []*Field{{Name: "page", T: page}, {Name: "query", T: query}},
+						Response: []*Field{fld("items", ArrayOf(RefTo(item, ""))), {Name: "page", T: pageResp}}}}})
+					kind := rule[strings.Index(rule, ".")+1:]
+					out = append(out, &Case{ID: fmt.Sprintf("pipeline:list:%s:%s:%s", l.tv, kind, pos), Family: "pipeline",
+						Coord: "pipeline|list|" + kind + "|" + path + "|type=" + l.tv, P: &Program{Files: []*File{f}}})
+				}
+			}
+		}
+	}
+	// recursion in every position
+	mkRec := func() (*File, *Decl) {
+		f := file("t/v1", "a")
+		node := obj("Node", fld("name", T(TString)))
+		node.Fields = append(node.Fields, fld("child", RefTo(node, "")), fld("kids", ArrayOf(RefTo(node, ""))))
+		f.Add(node)
+		return f, node
+	}
+	{
+		f, node := mkRec()
+		f.Add(&Service{Name: "Tree", BasePath: "/t/v1", Methods: []*Method{{Name: "PutTree", Verb: "POST", Path: "/tree", Request: []*Field{fld("root", RefTo(node, ""))}, HasResponse: true, Response: []*Field{fld("root", RefTo(node, ""))}}}})
+		add("recursive-request-response", f)
+	}
+	{
+		f, node := mkRec()
+		f.Imports = []Import{{Pkg: "j5.list.v1"}}
+		f.Add(&Service{Name: "Tree", BasePath: "/t/v1", Methods: []*Method{{Name: "ListTrees", Verb: "GET", Path: "/trees", HasResponse: true,
+			Request:  []*Field{{Name: "page", T: &Type{K: TObject, Ref: &Ref{Qualifier: "j5.list.v1", To: &Decl{Kind: DObject, Name: "PageRequest", File: &File{Dir: "j5/list/v1", Name: "page"}}}}}, {Name: "query", T: &Type{K: TObject, Ref: &Ref{Qualifier: "j5.list.v1", To: &Decl{Kind: DObject, Name: "QueryRequest", File: &File{Dir: "j5/list/v1", Name: "query"}}}}}},
+			Response: []*Field{fld("trees", ArrayOf(RefTo(node, ""))), {Name: "page", T: &Type{K: TObject, Ref: &Ref{Qualifier: "j5.list.v1", To: &Decl{Kind: DObject, Name: "PageResponse", File: &File{Dir: "j5/list/v1", Name: "page"}}}}}}}}})
+		add("recursive-list-items", f)
+	}
+	{
+		f := file("t/v1", "a")
+		a := obj("Alpha", fld("name", T(TString)))
+		b := obj("Beta", fld("a", RefTo(a, "")))
+		a.Fields = append(a.Fields, fld("b", RefTo(b, "")))
+		f.Add(a)
+		f.Add(b)
+		f.Add(&Service{Name: "Ab", BasePath: "/t/v1", Methods: []*Method{{Name: "GetAb", Verb: "GET", Path: "/ab", HasResponse: true, Response: []*Field{fld("a", RefTo(a, ""))}}}})
+		add("mutually-recursive-response", f)
+	}
+	{
+		f, node := mkRec()
+		e := basicEntity("Tree", []*Field{fld("root", RefTo(node, "")), fld("label", T(TString))}, []*Field{fld("root", RefTo(node, ""))})
+		f.Add(e)
+		add("recursive-entity-data", f)
+	}
+	{
+		f := file("t/v1", "a")
+		w := oneofD("Choice", fld("a", InlineOf(obj("", fld("x", T(TString))))))
+		w.Fields = append(w.Fields, fld("again", InlineOf(obj("", fld("next", RefTo(w, ""))))))
+		f.Add(w)
+		f.Add(&Service{Name: "Pick", BasePath: "/t/v1", Methods: []*Method{{Name: "Pick", Verb: "POST", Path: "/pick", Request: []*Field{fld("choice", RefTo(w, ""))}, HasResponse: true}}})
+		add("recursive-oneof-request", f)
 	}
 	return out
 }
